@@ -53,7 +53,9 @@ func (t *XMPPTransport) Connect() (string, error) {
 func (t *XMPPTransport) StartStream() (string, error) {
 	if _, err := fmt.Fprintf(t, t.openStatement, t.Config.Domain); err != nil {
 		t.Close()
-		return "", NewConnError(err, true)
+		// The connection went away under the stream header (a server dying in the middle of the
+		// negotiation): nothing is wrong with the configuration, so this is worth another attempt
+		return "", NewConnError(err, false)
 	}
 
 	sessionID, err := stanza.InitStream(t.GetDecoder())
